@@ -685,10 +685,12 @@ impl<M: RawMutex + 'static, P: Payload> MpmcCore<M, P> {
                 let ph = self.phase[i];
                 ctx.check("C10", "accepted-pending-sender-woken", ph == Phase::Accepted, s.woken(), || format!("send slot {}: value accepted but the sender was not woken through its latest waker", i));
                 ctx.check("C10", "every-pending-future-woken-after-close", self.closed, s.woken(), || format!("send slot {} is pending after close and was not woken", i));
+                ctx.check("C11", "every-pending-future-woken-after-close", self.closed, s.woken(), || format!("send slot {} is pending after close and was not woken", i));
             }
         }
         for p in &pend_recv {
             ctx.check("C10", "every-pending-future-woken-after-close", self.closed, p.1, || format!("receiver {} is pending after close and was not woken", p.0));
+            ctx.check("C11", "every-pending-future-woken-after-close", self.closed, p.1, || format!("receiver {} is pending after close and was not woken", p.0));
         }
         // C08: nothing that is still reachable has been dropped
         for t in &self.outstanding {
